@@ -144,7 +144,7 @@ def run_one(text, bufsize, prefix=None, policy=None, kind='stringio', tag=None, 
         except Exception as e:
             return [('C01|options|raises %s@%s' % (type(e).__name__, core.where(e)), 'text=%r, reader options %r: %r' % (text[106:], opts, e))], None
         return judge(text, got, 'options'), None
-    if resume_at:
+    if resume_at and kind == 'stringio':
         try:
             got = read_all(io.StringIO(text), bufsize, resume_at)
         except Exception as e:
@@ -174,7 +174,7 @@ def run_one(text, bufsize, prefix=None, policy=None, kind='stringio', tag=None, 
             if pre:
                 src.read(len(pre))
         try:
-            got = read_all(src, bufsize)
+            got = read_all(src, bufsize, resume_at if kind != 'stringio' else None)
         except Exception as e:
             sched = 'default' if not (policy or any(ctx.choices)) else 'short-read'
             return [('C01|%s|%s|raises %s@%s' % (tag, kind if kind != 'stringio' else sched, type(e).__name__, core.where(e)),
@@ -330,6 +330,16 @@ def work_kinds(shard):
                 P.out('kind|%s' % kind)
                 for k, msg in (v or []):
                     P.bad(k, {'text': text, 'kind': kind}, msg)
+            # the consumer leaves its loop after k segments and iterates again, on a source the reader opened itself (path)
+            # or was handed open; buffer 3: every later segment needs another read from the source
+            nseg = len([t for t in ref.tokenize(text)[0] if t.id is not None])
+            for kind in ('plain', 'file', 'path'):
+                for k in range(1, min(nseg, 2) + 1):
+                    v, ctx = run_one(text, 3, None, None, kind, resume_at=k)
+                    P.n += 1
+                    P.out('kind+resume|%s' % kind)
+                    for key, msg in (v or []):
+                        P.bad(key, {'text': text, 'kind': kind, 'bufsize': 3, 'resume_at': k}, msg)
     return P
 
 
@@ -457,7 +467,7 @@ def run(R):
                 'isa fields': '%d delimiter triples x 2 versions x 14 headers with the component separator inside ISA02/04/06/08/09 x all bodies <= %d (+ the header repeated mid-stream) x {default, buffer 3, one-char reads}' % (len(triples(T)), 3 if T else 2),
                 'resume': 'all bodies <= %d x buffer {8192, 3} x every k: the consumer leaves its loop after k segments and iterates the same reader again' % nR,
                 'reader options': 'the reader with check_837_lx switched on (as the validator, the context reader and x12metadata do for 837 maps): every sequence of <= %d segments over {CLM, LX*1, LX*2, LX*4, LX*01, LX*A:1, LX, ST, SE}, 2 delimiter triples, buffer {8192, 3}' % nO,
-                'source kinds': 'StringIO, open text file, path string, and StringIO / open file positioned behind a header line or an earlier interchange, on all CR-free bodies <= %d' % (4 if T else 3)}
+                'source kinds': 'StringIO, open text file, path string (each also with the loop left after 1 / 2 segments and resumed, buffer 3), and StringIO / open file positioned behind a header line or an earlier interchange, on all CR-free bodies <= %d' % (4 if T else 3)}
     R.assumptions = ['blanks and line breaks in front of a segment are dropped in whatever order they come (the two documented normalisations compose); pieces whose leading blanks are followed by TAB / VT / FF, and blank-only pieces, are left open by the statement and are skipped (counted)',
                      'path/file source kinds are compared on CR-free texts only (text mode translates CR)',
                      'short-read menu for reads that could return more than 9 characters is {1,2,half,full-2,full-1}']
